@@ -1,4 +1,4 @@
-import ComposeVerif.Lemmas.Name
+import ComposeVerif.Lemmas.NameDotenv
 import ComposeVerif.Gen.NameFacts
 import ComposeVerif.Neg.C17
 /-!
@@ -55,12 +55,12 @@ example : validName "_x".toList = false := by decide
 /-! ## the name decision -/
 
 /-- name_decision, soundness: the name of a successful load is the one the specification selects -/
-theorem name_decision (w : World) (o : PO) (r : Loaded) (h : load w o = .ok r) :
-    Spec.decide (sourcesOf w o) = .name r.name := by
+theorem name_decision {files : List (List (Option Str))} (w : World) (o : PO) (r : Loaded) (h : loadFiles w o files = .ok r) :
+    Spec.decide (sourcesOf w o files) = .name r.name := by
   have ⟨h1, h2, _⟩ := load_ok_inv w o r h
   have ha := loaderName_agrees w o
   rw [h1] at ha
-  cases hd : Spec.decide (sourcesOf w o) with
+  cases hd : Spec.decide (sourcesOf w o files) with
   | name n =>
     rw [hd] at ha
     have := ha.1
@@ -69,26 +69,26 @@ theorem name_decision (w : World) (o : PO) (r : Loaded) (h : load w o = .ok r) :
   | failed => rw [hd] at ha; rcases ha with ha | ha <;> cases ha
   | noName => rw [hd] at ha; exact absurd (Except.ok.inj ha) h2
 
-theorem name_decision_complete (w : World) (o : PO) (n p : Str)
-    (hd : Spec.decide (sourcesOf w o) = .name n)
-    (h3 : interpAll ((cpn, n) :: o.env) (allNames w) = .ok ())
+theorem name_decision_complete {files : List (List (Option Str))} (w : World) (o : PO) (n p : Str)
+    (hd : Spec.decide (sourcesOf w o files) = .name n)
+    (h3 : interpAll ((cpn, n) :: o.env) (allNames files) = .ok ())
     (h4 : Template.subst (Env.get ((cpn, n) :: o.env)) w.probe = .ok p) :
-    load w o = .ok { name := n, env := (cpn, n) :: o.env, probe := p } := by
+    loadFiles w o files = .ok { name := n, env := (cpn, n) :: o.env, probe := p } := by
   have ha := loaderName_agrees w o
   rw [hd] at ha
   exact load_ok_intro w o n p ha.1 ha.2 h3 h4
 
-theorem name_rejected (w : World) (o : PO) (hd : Spec.decide (sourcesOf w o) = .rejected) :
-    load w o = .error .invalidName := by
+theorem name_rejected {files : List (List (Option Str))} (w : World) (o : PO) (hd : Spec.decide (sourcesOf w o files) = .rejected) :
+    loadFiles w o files = .error .invalidName := by
   have ha := loaderName_agrees w o
   rw [hd] at ha
-  unfold load
-  rw [show loaderName w o.env (cliName w o) = .error .invalidName from ha]
+  unfold loadFiles
+  rw [show loaderName files o.env (cliName w o) = .error .invalidName from ha]
 
-theorem name_none (w : World) (o : PO)
-    (hd : Spec.decide (sourcesOf w o) = .noName ∨ Spec.decide (sourcesOf w o) = .failed) :
-    ∃ e, load w o = .error e := by
-  cases hl : load w o with
+theorem name_none {files : List (List (Option Str))} (w : World) (o : PO)
+    (hd : Spec.decide (sourcesOf w o files) = .noName ∨ Spec.decide (sourcesOf w o files) = .failed) :
+    ∃ e, loadFiles w o files = .error e := by
+  cases hl : loadFiles w o files with
   | error e => exact ⟨e, rfl⟩
   | ok r =>
     have := name_decision w o r hl
@@ -122,9 +122,9 @@ theorem imperative_invalid_rejected (w : World) (opts : List Opt) (n : Str) (hme
 
 /-- imperative_invalid_rejected (environment): an invalid non-empty `COMPOSE_PROJECT_NAME` in the project
     environment, with no explicit name, is rejected by the load -/
-theorem env_name_invalid_rejected (w : World) (o : PO) (n : Str) (hname : o.name = [])
+theorem env_name_invalid_rejected {files : List (List (Option Str))} (w : World) (o : PO) (n : Str) (hname : o.name = [])
     (henv : o.env.get cpn = some n) (hn : n ≠ []) (hv : validName n = false) :
-    load w o = .error .invalidName := by
+    loadFiles w o files = .error .invalidName := by
   apply name_rejected
   simp [Spec.decide, sourcesOf, hname, henv, Option.filter, hn, hv]
 
@@ -145,7 +145,7 @@ theorem explicit_name_wins (w : World) (opts : List Opt) (r : Loaded) (h : run w
 /-- name_visible_to_interpolation: after a successful load the project environment maps
     `COMPOSE_PROJECT_NAME` to the project name, `${COMPOSE_PROJECT_NAME}` interpolates to it, and the strings of the
     model were interpolated against that same environment -/
-theorem name_visible_to_interpolation (w : World) (o : PO) (r : Loaded) (h : load w o = .ok r) :
+theorem name_visible_to_interpolation {files : List (List (Option Str))} (w : World) (o : PO) (r : Loaded) (h : loadFiles w o files = .ok r) :
     r.env.get cpn = some r.name ∧
     Template.subst r.env.get "${COMPOSE_PROJECT_NAME}".toList = .ok r.name ∧
     Template.subst r.env.get w.probe = .ok r.probe := by
@@ -226,7 +226,7 @@ theorem dotenv_refs_above (cur envMap out : Env) (k t : Str) (ls : List (Str × 
 
 /-- the rest of the project environment is untouched by the load: every other variable keeps the value the
     options gave it -/
-theorem load_env_frame (w : World) (o : PO) (r : Loaded) (h : load w o = .ok r) (k : Str) (hk : k ≠ cpn) :
+theorem load_env_frame {files : List (List (Option Str))} (w : World) (o : PO) (r : Loaded) (h : loadFiles w o files = .ok r) (k : Str) (hk : k ≠ cpn) :
     r.env.get k = o.env.get k := by
   obtain ⟨_, _, henv, _, _⟩ := load_ok_inv w o r h
   rw [henv]
@@ -270,13 +270,13 @@ theorem dotenv_refines_spec (w : World) (cur : Env) (refs : List FileRef) (conte
 /-- the documented call sequence end to end: with the options in the documented order, a successful load has
     the name `Spec.decide` selects from (last `WithName`, `COMPOSE_PROJECT_NAME` read through the layers
     explicit > OS > .env, the compose files, the project directory) -/
-theorem name_decision_documented_order (w : World) (pre : List Opt)
+theorem name_decision_documented_order {files : List (List (Option Str))} (w : World) (pre : List Opt)
     (hpre : ∀ x ∈ pre, x ≠ .withDotEnv) (r : Loaded)
     (h : run w (pre ++ [.withDotEnv]) = .ok r) :
     ∃ o' m, runOpts w (pre ++ [.withDotEnv]) {} = .ok o' ∧
       o'.name = requestedName pre [] ∧
       o'.env.get cpn = lookupLayers [explicitLayer pre, osLayer w pre, m] cpn ∧
-      Spec.decide (sourcesOf w o') = .name r.name := by
+      Spec.decide (sourcesOf w o' files) = .name r.name := by
   obtain ⟨o', ho, hl⟩ := run_ok_inv w _ r h
   obtain ⟨o1, m, _, _, _, hk⟩ := env_precedence_documented_order w pre hpre o' ho
   refine ⟨o', m, ho, ?_, hk cpn, name_decision w o' r hl⟩
